@@ -91,7 +91,7 @@ def gen_case(rng, shape_name, with_override, with_sugar, with_alias):
                             seps = ([["TT"]] if has_tt[i] else []) + [[aliases[i][j], "TT"] for j in shape[i] if has_tt[j]]
                             if seps:
                                 sep = rng.choice(seps)
-                        alt.append({"kind": "ref", "parts": list(mods) + [name], "mult": mult, "sep": sep})
+                        alt.append({"kind": "ref", "parts": list(mods) + [name], "mult": mult, "sep": sep, "tgt": [_j, name]})
                 alts.append(alt)
             if with_sugar and rng.random() < 0.3:
                 # named matches (the rule's default action builds an object): also in IMPORTED files (finding D31)
@@ -106,6 +106,35 @@ def gen_case(rng, shape_name, with_override, with_sugar, with_alias):
             # a KEYWORD rule in the ROOT file governs the string terminals of every file (round-4 seeded change C20-h)
             terms.append({"name": "KEYWORD", "text": "/\\w+/", "re": True})
         files[i] = {"imports": [{"alias": aliases[i][j], "target": FNAMES[j]} for j in shape[i]], "rules": rules, "terms": terms}
+    # A repetition over a rule whose result can be None (an alternative that is just `X?`, or just a reference to such a rule) is not generated:
+    # the built-in collect actions drop None elements after the first, which the documentation does not describe either way (the leniency
+    # rule of DESIGN 5, as in sugar.strip_none_repetitions for C13; without it the seeded random part alarmed under VERIF_SEED=2 on
+    # `leaf.L+[TT]` with `L: ... | C?`).  Repeated until nothing changes: stripping `X+` down to `X` can make the enclosing rule None-valued.
+    changed = True
+    while changed:
+        changed = False
+        noneable = set()
+        grow = True
+        while grow:
+            grow = False
+            for i in range(nfiles):
+                for r in files[i]["rules"]:
+                    key = (i, r["name"][0])
+                    if key in noneable:
+                        continue
+                    for alt in r["alts"]:
+                        if len(alt) == 1 and alt[0]["kind"] == "ref" and not alt[0].get("name") and "tgt" in alt[0] and \
+                                (alt[0]["mult"] == "?" or (alt[0]["mult"] == "" and tuple(alt[0]["tgt"]) in noneable)):
+                            noneable.add(key)
+                            grow = True
+                            break
+        for i in range(nfiles):
+            for r in files[i]["rules"]:
+                for alt in r["alts"]:
+                    for it in alt:
+                        if it["kind"] == "ref" and it["mult"] in ("+", "*") and "tgt" in it and tuple(it["tgt"]) in noneable:
+                            it["mult"], it["sep"] = "", []
+                            changed = True
     if with_override:
         # override one rule of a file reachable from the root, written under the FIRST-path name, body of inline strings only
         first = {}
